@@ -94,4 +94,89 @@ example : NoWrap (init 100) exampleOps ∧ (run (init 100) exampleOps).handles =
   refine ⟨?_, by decide, by decide, by decide⟩
   simp [NoWrap, exampleOps, step, init, W]
 
+/-! ## Concurrent callers
+
+The sequential state machine above describes concurrent use exactly when every tracker operation
+is ONE atomic read-modify-write of `bytes_left` (then any concurrent history is a sequence of
+steps). `Gen/AllocOps.lean` is regenerated from alloc_tracker.rs on every run. -/
+
+open Jxl.Gen.AllocOps in
+/-- Each operation of the real tracker is a single atomic read-modify-write. -/
+theorem C13_ops_are_single_rmw :
+    alloc = [.rmwCheckedSub] ∧ expandLimit = [.rmwAdd] ∧ shrinkLimit = [.rmwCheckedSub] ∧
+    dropHandle = [.rmwAdd] := by decide
+
+open Jxl.Gen.AllocOps in
+/-- ... and the model's step is exactly that read-modify-write: same new `bytes_left`, and the
+step reports `ok` iff the atomic operation succeeded. -/
+theorem C13_step_is_its_rmw (s : State) :
+    (∀ c sz, c * sz < W → ∀ m ∈ alloc,
+      (step s (.alloc c sz)).1.left = (microApply s.left (c * sz) m).1 ∧
+      ((step s (.alloc c sz)).2 = .ok ↔ (microApply s.left (c * sz) m).2 = true)) ∧
+    (∀ n, ∀ m ∈ expandLimit, (step s (.expand n)).1.left = (microApply s.left n m).1) ∧
+    (∀ n, ∀ m ∈ shrinkLimit,
+      (step s (.shrink n)).1.left = (microApply s.left n m).1 ∧
+      ((step s (.shrink n)).2 = .ok ↔ (microApply s.left n m).2 = true)) ∧
+    (∀ i b, s.handles[i]? = some b → ∀ m ∈ dropHandle,
+      (step s (.drop i)).1.left = (microApply s.left b m).1) := by
+  refine ⟨?_, ?_, ?_, ?_⟩
+  · intro c sz hb m hm
+    simp only [alloc, List.mem_singleton] at hm; subst hm
+    have hb' : ¬ (c * sz ≥ W) := by omega
+    simp only [step, hb', if_false, microApply]
+    by_cases h : c * sz ≤ s.left <;> simp [h]
+  · intro n m hm
+    simp only [expandLimit, List.mem_singleton] at hm; subst hm
+    simp [step, microApply]
+  · intro n m hm
+    simp only [shrinkLimit, List.mem_singleton] at hm; subst hm
+    simp only [step, microApply]
+    by_cases h : n ≤ s.left <;> simp [h]
+  · intro i b hb m hm
+    simp only [dropHandle, List.mem_singleton] at hm; subst hm
+    simp [step, microApply, hb]
+
+/-! ## `set_limits` of the `image` integration
+
+`JxlDecoder::set_limits` moves the tracker by the difference to the limit it installed last. -/
+
+/-- After any sequence of `set_limits` calls (accepted or refused) interleaved with the decoder's
+own allocations and releases, the tracker's budget is exactly the limit accepted last, and what
+is handed out never exceeds it. -/
+theorem C13_set_limits_budget_is_last_accepted (ops : List DecOp) (hw : ∀ op ∈ ops, op.wf) :
+    (decRun Dec.init ops).tr.limit = (decRun Dec.init ops).current ∧
+    (decRun Dec.init ops).tr.left + outstanding (decRun Dec.init ops).tr = (decRun Dec.init ops).current ∧
+    outstanding (decRun Dec.init ops).tr ≤ (decRun Dec.init ops).current := by
+  obtain ⟨⟨h1, _⟩, h2⟩ := decRun_inv Dec.init ops hw decInit_inv
+  refine ⟨h2, ?_, ?_⟩ <;> omega
+
+/-- A refused `set_limits` changes nothing; an accepted one installs the new limit. -/
+theorem C13_set_limits_refused_or_installed (d : Dec) (new : Nat) :
+    ((setLimits d new).2 = false → (setLimits d new).1 = d) ∧
+    ((setLimits d new).2 = true → (setLimits d new).1.current = new) := by
+  unfold setLimits
+  by_cases hgt : new > d.current
+  · simp [hgt]
+  · simp only [hgt, if_false]
+    by_cases hfit : d.current - new ≤ d.tr.left <;> simp [step, hfit]
+
+/-- refused exactly when the bytes handed out do not fit the new limit -/
+theorem C13_set_limits_refused_iff (d : Dec) (new : Nat) (h : DecInv d) :
+    (setLimits d new).2 = false ↔ new < outstanding d.tr := by
+  obtain ⟨⟨h1, _⟩, h2⟩ := h
+  unfold setLimits
+  by_cases hgt : new > d.current
+  · simp [hgt]; omega
+  · simp only [hgt, if_false]
+    by_cases hfit : d.current - new ≤ d.tr.left
+    · simp [step, hfit]; omega
+    · simp [step, hfit]; omega
+
+example : let ops := [DecOp.setLimits 1000, .tracker (.alloc 100 4), .setLimits 10, .setLimits 1000,
+      .tracker (.alloc 500 1), .tracker (.drop 0)]
+    (∀ op ∈ ops, op.wf) ∧ (decRun Dec.init ops).current = 1000 ∧
+    (decRun Dec.init ops).tr.left = 500 ∧ (setLimits (decRun Dec.init ops) 10).2 = false := by
+  refine ⟨?_, by decide, by decide, by decide⟩
+  simp [DecOp.wf, W]
+
 end Jxl.Alloc
